@@ -236,6 +236,7 @@ def run_shard(ctx):
         script = gen.render_program(prog, lay)
         one_program(ctx, script, rng, [{}] + rng.sample(all_settings[1:], 2))
     stateful_converter(ctx)
+    block_converter(ctx, rng)
     # symbols without an equation contribute variables but no code
     import fsic
     from fsic.parser import Symbol, Type
@@ -288,6 +289,68 @@ def stateful_converter(ctx):
         if conv.calls - before != 8:
             ctx.violation('converter-calls', f'build {rep}: converter called {conv.calls - before} times for 2 equations x 2 builds x 2 templates, expected 8', case)
             return
+
+
+def block_converter(ctx, rng):
+    """A converter whose first output opens a block and whose later outputs are indented to stay inside it: 'inserted
+    verbatim' includes the leading white space of every line, and the built model must behave as the inserted text says."""
+    import fsic
+
+    class Block:
+        opened = False
+
+        def __call__(self, s):
+            body = textwrap.indent(s.code, '    ')
+            if not self.opened:
+                self.opened = True
+                return "if not kwargs.get('frozen', False):\n" + body
+            return body + '\n    pass'
+
+    scripts = ['Y = X + 1\nZ = Y * 2\nW = Z + Y', 'A = B[-1] + 1\nC = A * 2', 'Y = X\n```\nself._Y[t] = self._Y[t] + 1\n```\nZ = Y + 1']
+    for k, script in enumerate(scripts):
+        symbols = fsic.parse_model(script)
+        for typed in (True, False):
+            case = {'kind': 'block-converter', 'script': script, 'typed': typed}
+            ctx.evaluation(('block-converter', script, typed), nontrivial=True)
+            outs = []
+            conv = Block()
+
+            def recording(s, conv=conv):
+                out = conv(s)
+                outs.append(out)
+                return out
+            try:
+                text = fsic.build_model_definition(symbols, converter=recording, with_type_hints=typed)
+                conv.opened = False
+                M = fsic.build_model(symbols, converter=conv, with_type_hints=typed)
+            except Exception as e:
+                ctx.violation('build-raises', f'building {script!r} with a block-opening converter raised {type(e).__name__}: {str(e)[:200]}', case)
+                return
+            ctx.count('converter_calls_observed', len(outs))
+            pos = 0
+            for out in outs:
+                block = textwrap.indent(out, '        ')
+                at = text.find(block, pos)
+                if at < 0:
+                    ctx.violation('converter-output-not-verbatim', f'converter output {out!r} not found (with its own indentation, in order) in the definition', case)
+                    return
+                pos = at + len(block)
+            if M.CODE != text:
+                ctx.violation('code-attribute-differs', 'Model.CODE differs from build_model_definition() with a block-opening converter', case)
+                return
+            for frozen in (True, False):
+                m = M(range(4), **{nm: 3.0 for nm in M.NAMES if nm not in M.ENDOGENOUS})
+                for nm in M.ENDOGENOUS:
+                    m[nm] = -1.0
+                m.solve(frozen=frozen, failures='ignore', max_iter=3)
+                moved = [nm for nm in M.ENDOGENOUS if not np.all(m[nm][M.LAGS:] == -1.0)]
+                ctx.count('evaluations_compared')
+                if frozen and moved:
+                    ctx.violation('variant-behaviour', f'{script!r}: the inserted text keeps every equation inside `if not frozen:`, yet solve(frozen=True) changed {moved}', case)
+                    return
+                if not frozen and len(moved) != len(M.ENDOGENOUS):
+                    ctx.violation('variant-behaviour', f'{script!r}: solve(frozen=False) changed only {moved} of {M.ENDOGENOUS}', case)
+                    return
 
 
 def replay(ctx, case):
